@@ -30,14 +30,26 @@ def partial(t, phase):
     return c
 
 
-def check(seq):
+def edited(t, phase):
+    """a parsed tree (positions kept) in which every other node lost its head and tail, as after replacing operands by hand"""
+    import copy
+    c = copy.deepcopy(t)
+    for i, b in enumerate(gen.nodes(c)):
+        if i % 2 == phase:
+            b.head = b.tail = ""
+    return c
+
+
+def check(item):
     fails = []
-    q = gen.render(seq)
+    seq, tricky = item
+    q = gen.render_tricky(seq, len(seq)) if tricky else gen.render(seq)
     try:
         t0 = parser.parse(q)
     except Exception:  # noqa: BLE001  not accepted (e.g. a non-integer proximity): outside the property's quantifier
         return 0, []
-    cands = [("layout-free", gen.strip_layout(t0)), ("partial0", partial(t0, 0)), ("partial1", partial(t0, 1))]
+    cands = [("layout-free", gen.strip_layout(t0)), ("partial0", partial(t0, 0)), ("partial1", partial(t0, 1)),
+             ("parsed-edited0", edited(t0, 0)), ("parsed-edited1", edited(t0, 1))]
     n = 0
     for kind, t in cands:
         n += 1
@@ -61,7 +73,7 @@ def check(seq):
         z = auto_head_tail(y)
         if layout(z) != layout(y) or z != y:
             fails.append({"input": q, "kind": kind, "observation": "not idempotent"})
-        if kind == "layout-free":
+        if True:      # every kind: what was kept came from a valid layout, what was missing is filled in
             s = y.__str__(head_tail=True)
             try:
                 back = parser.parse(s)
@@ -76,12 +88,13 @@ def check(seq):
 def main():
     p = read_payload()
     seqs = gen.sequences(p["max_tokens"])
-    res = pmap(check, seqs)
+    items = [(s, False) for s in seqs] + [(s, True) for i, s in enumerate(seqs) if i % 3 == 0 and any(t in gen.TRICKY for t in s)]
+    res = pmap(check, items)
     failures = [f for r in res for f in r[1]]
     rest, hit = classify(failures, p.get("known", []))
     emit({"ok": not rest, "evaluations": sum(r[0] for r in res), "distinct_nontrivial": len([s for s in seqs if len(s) > 1]),
           "rule": "every accepted token-type sequence of <= %d tokens (enumerated by DFS over the live LALR automaton), rendered "
-                  "with distinct words, parsed, stripped of layout (fully / every other node); non-trivial = more than one token"
+                  "with distinct words (every third one also with texts that probe token boundaries: escapes, quotes inside phrases, reserved words in other case), parsed, stripped of layout (fully / every other node); non-trivial = more than one token"
                   % p["max_tokens"],
           "bound": "token sequences of length <= %d" % p["max_tokens"],
           "samples": [{"tokens": list(seqs[len(seqs) // 2]), "query": gen.render(seqs[len(seqs) // 2])}],
